@@ -39,3 +39,116 @@ def scan(b: Bytes, j: int) -> int:
 @spec
 def frame(b0: int, body: Bytes) -> Bytes:
     return seq(b0) + varint(len(body)) + body
+
+
+# ---- [3.4]-[3.7], [3.11] two-byte-body acknowledgement packets ------------------------------------
+@spec
+def sPUBACK(id: int) -> Bytes:
+    return frame(0x40, u16(id))
+
+
+@spec
+def sPUBREC(id: int) -> Bytes:
+    return frame(0x50, u16(id))
+
+
+# [3.6.1] bits 3,2,1,0 of the PUBREL fixed header are reserved and MUST be 0,0,1,0
+@spec
+def sPUBREL(id: int) -> Bytes:
+    return frame(0x62, u16(id))
+
+
+# [3.7.1] PUBCOMP: flag bits reserved = 0 [MQTT-2.2.2-1]
+@spec
+def sPUBCOMP(id: int) -> Bytes:
+    return frame(0x70, u16(id))
+
+
+@spec
+def sUNSUBACK(id: int) -> Bytes:
+    return frame(0xB0, u16(id))
+
+
+# [3.12] [3.13] [3.14]
+@spec
+def sPINGREQ() -> Bytes:
+    return seq(0xC0, 0)
+
+
+@spec
+def sPINGRESP() -> Bytes:
+    return seq(0xD0, 0)
+
+
+@spec
+def sDISCONNECT() -> Bytes:
+    return seq(0xE0, 0)
+
+
+# [3.2] CONNACK: byte 1 = connect acknowledge flags (bit 0 session present), byte 2 = return code
+@spec
+def sCONNACK(sp: bool, rc: int) -> Bytes:
+    return frame(0x20, seq(b2i(sp), rc))
+
+
+# the body of a received frame: everything after the remaining-length field
+@spec
+def body(packet: Bytes) -> Bytes:
+    return packet[scan(packet, 1) + 1:]
+
+
+# ---- [3.3] PUBLISH ----------------------------------------------------------------------------------
+# byte 1: 0011 DUP QoS(2) RETAIN; variable header: topic name, packet identifier only if QoS > 0; payload
+@spec
+def pub_body(qos: int, topic: Str, id: int, payload: Bytes) -> Bytes:
+    return mstr(topic) + (u16(id) if qos > 0 else seq()) + payload
+
+
+@spec
+def sPUBLISH(dup: bool, qos: int, retain: bool, topic: Str, id: int, payload: Bytes) -> Bytes:
+    return frame(0x30 + 8 * b2i(dup) + 2 * qos + b2i(retain), pub_body(qos, topic, id, payload))
+
+
+# ---- [3.8] SUBSCRIBE: packet identifier, then (topic filter, requested QoS) pairs in order -----------
+# sub_pl(ts, i): payload bytes of the first i pairs; tail_pl(ts, k): of the pairs from index k on
+@spec(decreases='i')
+def sub_pl(ts: ListSI, i: int) -> Bytes:
+    return seq() if i <= 0 else sub_pl(ts, i - 1) + mstr(ts[i - 1][0]) + seq(ts[i - 1][1])
+
+
+@spec(decreases='len(ts) - k')
+def sub_tail(ts: ListSI, k: int) -> Bytes:
+    return seq() if k >= len(ts) else mstr(ts[k][0]) + seq(ts[k][1]) + sub_tail(ts, k + 1)
+
+
+# [3.8.1] bits 3,2,1,0 of the SUBSCRIBE fixed header are reserved and MUST be 0,0,1,0
+@spec
+def sSUBSCRIBE(id: int, ts: ListSI) -> Bytes:
+    return frame(0x82, u16(id) + sub_pl(ts, len(ts)))
+
+
+# ---- [3.10] UNSUBSCRIBE: packet identifier, then topic filters in order ----------------------------
+@spec(decreases='i')
+def unsub_pl(ts: ListStr, i: int) -> Bytes:
+    return seq() if i <= 0 else unsub_pl(ts, i - 1) + mstr(ts[i - 1])
+
+
+@spec(decreases='len(ts) - k')
+def unsub_tail(ts: ListStr, k: int) -> Bytes:
+    return seq() if k >= len(ts) else mstr(ts[k]) + unsub_tail(ts, k + 1)
+
+
+@spec
+def sUNSUBSCRIBE(id: int, ts: ListStr) -> Bytes:
+    return frame(0xA2, u16(id) + unsub_pl(ts, len(ts)))
+
+
+# ---- [3.9] SUBACK: packet identifier, then one return code per topic filter: 0,1,2 granted QoS, 0x80 failure
+@spec(decreases='i')
+def suback_pl(gs: ListIB, i: int) -> Bytes:
+    return seq() if i <= 0 else suback_pl(gs, i - 1) + seq(gs[i - 1][0] + 128 * b2i(gs[i - 1][1]))
+
+
+@spec
+def sSUBACK(id: int, gs: ListIB) -> Bytes:
+    return frame(0x90, u16(id) + suback_pl(gs, len(gs)))
